@@ -39,6 +39,7 @@ type cronDag struct {
 	Stop     []string `json:"stop,omitempty"`
 	Restart  []string `json:"restart,omitempty"`
 	DurSec   []int    `json:"durSec"`          // step durations (one step per entry, a chain)
+	TailMs   int      `json:"tailMs,omitempty"` // added to the last step: fine-tunes when the run ends relative to a tick
 	Present0 bool     `json:"present0"`        // exists when the daemon first starts
 	Susp0    bool     `json:"susp0,omitempty"` // suspended at the beginning
 }
@@ -105,7 +106,11 @@ func (d *cronDag) yaml(start []string) string {
 func (d *cronDag) spec() *DagSpec {
 	sp := &DagSpec{File: d.File}
 	for i, s := range d.DurSec {
-		sp.Steps = append(sp.Steps, StepSpec{Name: fmt.Sprintf("s%d", i), RetryLimit: -1, DurMs: []int{s * 1000}})
+		ms := s * 1000
+		if i == len(d.DurSec)-1 {
+			ms += d.TailMs
+		}
+		sp.Steps = append(sp.Steps, StepSpec{Name: fmt.Sprintf("s%d", i), RetryLimit: -1, DurMs: []int{ms}})
 	}
 	return sp
 }
@@ -170,7 +175,13 @@ func genCronScenario(tp *simrt.Tape, thorough bool) *cronScenario {
 		}
 		nsteps := 1 + tp.Draw(simrt.SGen, 2)
 		for k := 0; k < nsteps; k++ {
-			d.DurSec = append(d.DurSec, pick(tp, 1, 3, 8, 20, 45, 80, 150, 400))
+			// 58-60 s and 119 s: the run ends (shuts its socket, compacts its record) right around a later tick
+			d.DurSec = append(d.DurSec, pick(tp, 1, 3, 8, 20, 45, 58, 59, 59, 60, 80, 119, 150, 400))
+		}
+		if chance(tp, 1, 3) {
+			// the run shuts its socket and compacts its record within milliseconds of a later tick
+			d.DurSec = []int{pick(tp, 59, 59, 119)}
+			d.TailMs = pick(tp, 700, 800, 850, 880, 900, 920, 950, 980, 995)
 		}
 		d.Present0 = !chance(tp, 1, 5)
 		d.Susp0 = chance(tp, 1, 8)
@@ -269,6 +280,27 @@ func cronsim(t *testing.T, tp *simrt.Tape, opts RunOpts) *Outcome {
 	tl := &cronTL{files: map[int][]fileVer{}, susp: map[int][]fileVer{}, manual: map[int][]time.Time{}}
 	bindAt := map[int]time.Time{}
 	unbindAt := map[int]time.Time{}
+	// fault "slow_op": when a run is about to remove its uncompacted record within 1.5 s before a minute
+	// boundary, that removal is slow and lands a seeded 0-600 µs after the boundary — inside the daemon's
+	// handling of the tick (between its listing of the history directory and its reading of the newest record)
+	slowed := map[int]bool{}
+	slowOn := chance(tp, 1, 2)
+	cfg.FaultPlan = func(op *simrt.OpInfo) simrt.Fault {
+		if !slowOn || cw == nil || op.Kind != "unlink" || !strings.HasSuffix(op.Path, ".dat") || slowed[op.Proc.Pid] {
+			return simrt.Fault{}
+		}
+		if cp := cw.byPid[op.Proc.Pid]; cp == nil || cp.spec == nil {
+			return simrt.Fault{}
+		}
+		now := time.Now()
+		next := now.Truncate(time.Minute).Add(time.Minute)
+		if next.Sub(now) > 1500*time.Millisecond {
+			return simrt.Fault{}
+		}
+		slowed[op.Proc.Pid] = true
+		op.Proc.W.CountFault("slow_op")
+		return simrt.Fault{Kind: simrt.FSlow, Delay: next.Sub(now) + time.Duration(tp.Draw(simrt.SFault, 60))*10*time.Microsecond}
+	}
 	cfg.OnOp = func(op *simrt.OpInfo) {
 		if cw == nil || !strings.HasSuffix(op.Path, ".sock") {
 			return
@@ -506,15 +538,24 @@ func (c *cronCheck) evaluations(dl *daemonLife) []evaluation {
 		}
 		return span{}, false
 	}
-	// start-up: the daemon evaluates the minute it starts in
-	m0 := dl.from.Truncate(time.Minute)
-	su := evaluation{minute: m0, a: dl.from, b: dl.from.Add(cronSlack), life: dl, kind: "startup"}
-	if dl.from.Add(cronSlack).After(m0.Add(time.Minute)) {
-		su.fuzzy = true // so close to the boundary that start-up may read the next minute
+	// start-up: the daemon evaluates the minute it starts in. A daemon that is frozen before it has
+	// finished starting up (configuration, first directory read) only starts for real when the freeze ends:
+	// the minutes in between are not ticks it owes
+	from := dl.from
+	startupFrozen := false
+	for _, f := range dl.freezes {
+		if f.from.Before(dl.from.Add(2*time.Second)) && f.to.After(from) {
+			from, startupFrozen = f.to, true
+		}
 	}
-	if f, ok := frozenAt(dl.from.Add(time.Second)); ok {
-		su.b = f.to.Add(cronSlack)
-		su.fuzzy = true
+	m0 := from.Truncate(time.Minute)
+	su := evaluation{minute: m0, a: from, b: from.Add(cronSlack), life: dl, kind: "startup"}
+	if from.Add(cronSlack).After(m0.Add(time.Minute)) || startupFrozen {
+		su.fuzzy = true // so close to the boundary (or so uncertain) that start-up may read the next minute
+	}
+	if startupFrozen {
+		// it may also have read the clock just before it froze
+		evs = append(evs, evaluation{minute: dl.from.Truncate(time.Minute), a: dl.from, b: from.Add(cronSlack), life: dl, kind: "startup", fuzzy: true})
 	}
 	evs = append(evs, su)
 	for m := m0.Add(time.Minute); m.Before(dl.to); m = m.Add(time.Minute) {
@@ -660,8 +701,16 @@ func (c *cronCheck) run() {
 					startedInOrAfter, maybeStartedInOrAfter := false, false
 					for _, cp := range agents {
 						sp, ex := c.spawnAt[cp.proc.Pid], end(cp)
-						if sp.Before(e.b) && ex.After(e.a.Add(-time.Second)) && !containsProc(starts, cp) {
+						// a run counts as in progress from its spawn until it has shut its status socket (what the
+						// daemon and the API go by); after that only its final record and its exit remain
+						active := ex
+						if ub, ok := c.unbindAt[cp.proc.Pid]; ok && ub.Before(ex) {
+							active = ub
+						}
+						if sp.Before(e.b) && active.After(e.a.Add(-5*time.Millisecond)) && !containsProc(starts, cp) {
 							idle = false
+						} else if sp.Before(e.b) && ex.After(e.a.Add(-5*time.Millisecond)) && !containsProc(starts, cp) {
+							bump(c.out, "evaluation_while_previous_run_shuts_down")
 						}
 						if bt, ok := c.bindAt[cp.proc.Pid]; ok && bt.Before(e.a.Add(-time.Second)) && ex.After(e.b) {
 							if ub, ok := c.unbindAt[cp.proc.Pid]; !ok || ub.After(e.b) {
